@@ -387,7 +387,14 @@ func writeFileAtomic(path string, data []byte) (err error) {
 		mode = info.Mode().Perm()
 	}
 
-	f, err := os.CreateTemp(filepath.Dir(path), "."+filepath.Base(path)+".*.tmp")
+	// The temporary file is named after the target, unless that would make
+	// its name longer than file systems allow (255 bytes, of which CreateTemp
+	// needs up to 10 for the random part).
+	pattern := "." + filepath.Base(path) + ".*.tmp"
+	if len(pattern) > 240 {
+		pattern = ".gopatch.*.tmp"
+	}
+	f, err := os.CreateTemp(filepath.Dir(path), pattern)
 	if err != nil {
 		return fmt.Errorf("write %q: %w", path, err)
 	}
